@@ -727,6 +727,19 @@ class Desugarer:
                     B._defs = None
                     B.expanded.append('?')
                     return True
+                a0 = t['args'][0]
+                if ty0.startswith('std::result::Result<') and a0.get('k') in ('copy', 'move') and not a0['place']['p']:
+                    # ... and on a Result: from_residual(Err(e)) is Err(e.into()) - an Err aggregate carrying the
+                    # residual's payload (the conversion is the identity whenever the error types agree)
+                    span = t['span']
+                    B.blocks[bi] = dict(B.blocks[bi],
+                                        stmts=B.blocks[bi]['stmts'] + [assign_place(
+                                            t['dest'], agg_variant(RES, 'Err', [mv(a0['place']['l'], *downcast('Err', 1, RES))]),
+                                            span)],
+                                        term=goto(t['target'], span))
+                    B._defs = None
+                    B.expanded.append('?')
+                    return True
                 continue
             if _is(callee, ('bool::then_some',)) and len(t['args']) == 2 and t['target'] is not None:
                 # b.then_some(v): Some(v) when b, None otherwise - a branch, not an opaque call
